@@ -304,6 +304,10 @@ def pin_variants(rng, cert: bytes):
     out += ["", ":", "::::", "0" * 32, "0" * 40, "0" * 64, "f" * 32, "a" * 31, "a" * 33, "a" * 39, "a" * 41, "a" * 63, "a" * 65,
             "a" * 128, d["sha256"][:32], d["sha256"][:40], d["sha1"][:32], d["md5"] + d["md5"], d["sha1"] + d["sha1"][:24],
             d["md5"] + d["sha1"][:8], "g" * 32, "中" * 32, ":" * 32]
+    # true digests of the same certificate under algorithms the rule does not list
+    for alg in ("sha512", "sha384", "sha224", "sha3_256", "sha3_512", "blake2b", "blake2s"):
+        h = hashlib.new(alg, cert).hexdigest()
+        out += [h, h.upper(), ":".join(h[i:i + 2] for i in range(0, len(h), 2))]
     return out
 
 
